@@ -557,6 +557,16 @@ class Executor:
                 # reference-typed argument: a pointer to memory rooted at its own name
                 return ("ref", Place("*" + key))
             return ("agg", place, ty)
+        if sort is None and ty is None and place.key().startswith("*") and not place.projs:
+            # `*_N` where `_N: &&T` (or deeper): the value read is itself a reference
+            loc = place.root.lstrip("*")
+            loc = loc[len(frame):] if loc.startswith(frame) else loc
+            decl = (fn.locals.get(loc) or "").strip()
+            depth = len(place.root) - len(place.root.lstrip("*"))
+            amp = len(decl) - len(decl.lstrip("&"))
+            if amp > depth:
+                key = place.key()
+                return ("ref", st.refs.get(key) or Place("*" + key))
         if sort is None:
             raise Untranslatable("operand of unknown type: " + t)
         return self.read_place(st, fn, place, sort, frame)
@@ -1107,6 +1117,8 @@ class Executor:
 
     def exec_stmt(self, st, fn, s, frame):
         s = s.rstrip(";")
+        # pattern types in place annotations (`(u32) is 0..=999999999`): the base type is what matters here
+        s = re.sub(r"\((u\d+|i\d+|usize|isize)\) is [-\d]+\.\.=?[-\d]*", r"\1", s)
         if s.startswith(("StorageLive", "StorageDead", "nop", "FakeRead", "PlaceMention", "Retag", "AscribeUserType", "Coverage", "ConstEvalCounter", "BackwardIncompatibleDropHint")):
             return
         if s.startswith("assume("):
